@@ -311,6 +311,15 @@ func (s *Scheme) runDKG(ctx context.Context, membership *membership, dkgProtocol
 			allowedList: universalIDsToUintMap(universalIds),
 		}
 
+		s.Logger.Debugf("Running keygen with parties %v", members)
+
+		// Initialize the protocol instance before incoming messages can reach it
+		if err := s.initializeDKG(dkgProtocolInstance, t, UIntsToUniversalIDs(members), membership); err != nil {
+			s.Logger.Errorf("Failed initializing DKG: %v", err)
+			resultChan <- mpcResult{err: err}
+			return
+		}
+
 		s.lock.Lock()
 		_, rbcExisted := s.rbcInProgress[string(dkgTopicHash)]
 		s.rbcInProgress[string(dkgTopicHash)] = rbc.Receive
@@ -318,14 +327,6 @@ func (s *Scheme) runDKG(ctx context.Context, membership *membership, dkgProtocol
 
 		if rbcExisted {
 			panic("Programming error: we shouldn't have gotten to a situation with two concurrent signing with the same topic")
-		}
-
-		s.Logger.Debugf("Running keygen with parties %v", members)
-
-		if err := s.initializeDKG(dkgProtocolInstance, t, UIntsToUniversalIDs(members), membership); err != nil {
-			s.Logger.Errorf("Failed initializing DKG: %v", err)
-			resultChan <- mpcResult{err: err}
-			return
 		}
 
 		// We use a synchronizer to synchronize on the hash of the parties, to ensure that all parties that participate
